@@ -11,11 +11,11 @@ import (
 type colKind int
 
 const (
-	kID colKind = iota // primary key: generated, never varied directly
-	kRef               // reference: filled by the generator
-	kText              // free text, may be blank
-	kTextReq           // free text, required (never blank)
-	kEnum              // enum digit, explicit (well-formed feeds write default-bearing fields explicitly)
+	kID      colKind = iota // primary key: generated, never varied directly
+	kRef                    // reference: filled by the generator
+	kText                   // free text, may be blank
+	kTextReq                // free text, required (never blank)
+	kEnum                   // enum digit, explicit (well-formed feeds write default-bearing fields explicitly)
 	kTimeOfDay
 	kDecimalOpt // optional decimal: blank allowed
 	kDecimalReq
